@@ -18,6 +18,8 @@ use std::io::{BufRead, Write};
 use std::panic::{catch_unwind, AssertUnwindSafe};
 use std::str::FromStr;
 
+mod ser;
+
 fn flatten_into(ts: TokenStream, out: &mut String) {
     for tt in ts {
         match tt {
@@ -554,8 +556,55 @@ fn fuzz(corpus_path: &str, seed: u64, iters: u64, out_path: &str) {
                      seeds.len(), ks.join(","));
 }
 
+/// L1c: mutants of the corpus items that lie inside the model's fragment, as S-expression cases for `drv ext`
+fn mutants(corpus_path: &str, seed: u64, iters: u64) {
+    std::panic::set_hook(Box::new(|_| {}));
+    let text = std::fs::read_to_string(corpus_path).expect("corpus");
+    let seeds: Vec<(TokenStream, TokenStream)> = text.lines().filter_map(|l| {
+        let (a, i) = l.split_once('\t')?;
+        Some((TokenStream::from_str(a).ok()?, TokenStream::from_str(i).ok()?))
+    }).collect();
+    let mut rng = Rng(seed.wrapping_mul(0x2545F4914F6CDD1D) ^ 0x7654321);
+    let mut seen: std::collections::HashSet<String> = std::collections::HashSet::new();
+    let (mut tried, mut valid, mut inside) = (0u64, 0u64, 0u64);
+    while tried < iters && !seeds.is_empty() {
+        tried += 1;
+        let (a0, i0) = &seeds[rng.below(seeds.len())];
+        let (da, di) = &seeds[rng.below(seeds.len())];
+        let mut a = a0.clone();
+        let mut i = i0.clone();
+        for _ in 0..1 + rng.below(3) {
+            if rng.below(3) == 0 { a = mutate(a, da, &mut rng, 0); } else { i = mutate(i, di, &mut rng, 0); }
+        }
+        if syn::parse2::<syn::Item>(i.clone()).is_err() { continue; }
+        let (at, it) = (a.to_string().replace('\n', " "), i.to_string().replace('\n', " "));
+        // only what survives printing and re-lexing is source text
+        let (Ok(a2), Ok(i2)) = (TokenStream::from_str(&at), TokenStream::from_str(&it)) else { continue };
+        valid += 1;
+        if !seen.insert(format!("{at}\t{it}")) { continue; }
+        let derive_form = rng.below(3) == 0;
+        if derive_form {
+            let whole = format!("# [ derive_ex ( {at} ) ] {it}");
+            let Ok(w2) = TokenStream::from_str(&whole) else { continue };
+            if syn::parse2::<syn::DeriveInput>(w2.clone()).is_err() { continue; }
+            if let Some(si) = ser::item(w2) {
+                inside += 1;
+                println!("(case {} derive {} {si})", ser::q(&format!("mut/{seed}/{tried}")), ser::q(&whole));
+            }
+        } else if let (Some(sa), Some(si)) = (ser::derive_ex_args(a2), ser::item(i2)) {
+            inside += 1;
+            println!("(case {} attr {} {} {sa} {si})", ser::q(&format!("mut/{seed}/{tried}")), ser::q(&at), ser::q(&it));
+        }
+    }
+    eprintln!("mutants: tried {tried}, valid items {valid}, inside the model's fragment {inside}");
+}
+
 fn main() {
     let args: Vec<String> = std::env::args().collect();
+    if args.len() == 5 && args[1] == "mutants" {
+        mutants(&args[2], args[3].parse().unwrap_or(1), args[4].parse().unwrap_or(1000));
+        return;
+    }
     if args.len() == 2 && args[1] == "tables" {
         tables();
         return;
@@ -567,6 +616,25 @@ fn main() {
             Ok(ts) => println!("{}", ts.to_string().replace('\n', " ")),
             Err(e) => println!("<{e}>"),
         });
+        return;
+    }
+    if args.len() == 3 && args[1] == "ser" {
+        // corpus lines (`<args>\t<item>`) as S-expression cases for `drv ext`; what the model does not speak about is
+        // counted on stderr
+        let text = std::fs::read_to_string(&args[2]).unwrap_or_default();
+        let (mut n, mut skipped) = (0u64, 0u64);
+        for (k, line) in text.lines().enumerate() {
+            let Some((a, i)) = line.split_once('\t') else { continue };
+            let (Ok(at), Ok(it)) = (TokenStream::from_str(a), TokenStream::from_str(i)) else { continue };
+            match ser::item(it.clone()).and_then(|si| ser::derive_ex_args(at.clone()).map(|sa| (sa, si))) {
+                Some((sa, si)) => {
+                    n += 1;
+                    println!("(case {} attr {} {} {} {})", ser::q(&format!("ext/{k}")), ser::q(a), ser::q(i), sa, si);
+                }
+                None => skipped += 1,
+            }
+        }
+        eprintln!("ser: {n} cases, {skipped} outside the model's fragment");
         return;
     }
     if args.len() >= 3 && args[1] == "corpus" {
